@@ -354,7 +354,10 @@ class C15Monitor(jobsim.Monitor):
         # start => equal converged state
         key = (adigest(c["ext0"]), tuple(x[1] if x else None for x in c["sv_start"]), c["step"] if len(self.doc["steps"]) > 1 else 0)
         ramped_items = any(r["target"].startswith("item:") for s in self.doc["steps"] for r in s.get("ramp", []))
-        if not ramped_items:
+        # a substep in which an injected solver fault threw Newton off its path may legitimately end
+        # on another equilibrium: compared only between undisturbed substeps
+        disturbed = any(f.get("step") == c["step"] and f.get("substep") == c["substep"] for f in eng.fired)
+        if not ramped_items and not disturbed:
             for key2, vals2, tol2 in self.levels:
                 if key2 == key:
                     bad, d, _lim = conv_diff(vals, vals2, c["tol"])
@@ -655,7 +658,8 @@ def retry_check(doc, eng, exc, log):
     if ncb:
         last = eng.callbacks[-1]["x"]
     else:
-        last = [np.zeros_like(f.values) for f in w.field.fields]
+        # the initial values of the fields (ones for the volume-ratio field of a mixed container)
+        last = [f.values.copy() for f in world.World(copy.deepcopy({**doc, "faults": []})).field.fields]
     w.set_values(last)
     j, i = flat_index(doc, ncb)  # first substep to be (re-)run
     rest = []
